@@ -118,6 +118,30 @@ def run_case(case):
         err = picture(t, rects, {}, f"open document after merging {[rng(tuple(x)) for x in case['rects']]} then {op}")
         if err:
             return {"detail": err}
+    if case.get("second"):
+        # history: save, then merge more rectangles on the SAME open document, then save again and reopen
+        more = [tuple(x) for x in case["second"]]
+        with tempfile.TemporaryDirectory() as td:
+            doc.save(os.path.join(td, "first.numbers"))
+            for x in more:
+                t.merge_cells(rng(x))
+            rects2 = rects + more
+            what = f"merging {[rng(x) for x in rects]}, saving, merging {[rng(x) for x in more]}"
+            err = picture(t, rects2, {}, f"open document after {what}")
+            if err:
+                return {"detail": err}
+            p2 = os.path.join(td, "second.numbers")
+            doc.save(p2)
+            err = picture(Document(p2).sheets[0].tables[0], rects2, {}, f"reopened after {what}, saving again")
+            if err:
+                return {"detail": err, "class": "multi-save"}
+            # and once more: an unchanged third save
+            p3 = os.path.join(td, "third.numbers")
+            doc.save(p3)
+            err = picture(Document(p3).sheets[0].tables[0], rects2, {}, f"reopened after {what}, saving twice more")
+            if err:
+                return {"detail": err, "class": "multi-save"}
+        return None
     if case.get("reopen", True):
         with tempfile.TemporaryDirectory() as td:
             p = os.path.join(td, "m.numbers")
@@ -153,6 +177,13 @@ def main():
     rnd.shuffle(pairs)
     for x, y in pairs[: a.pairs]:
         cases.append({"size": n, "rects": [list(x), list(y)], "as_list": rnd.random() < 0.5})
+    # two-stage histories: every ordered pair from a sample of disjoint rectangles (the later merge before / after / between the earlier ones)
+    for x, y in pairs[: a.pairs]:
+        cases.append({"size": n, "rects": [list(x)], "second": [list(y)]})
+        cases.append({"size": n, "rects": [list(y)], "second": [list(x)]})
+    triples = [(x, y, z) for (x, y) in pairs[:40] for z in rects[::7] if disjoint(x, z) and disjoint(y, z)]
+    for x, y, z in triples[:30]:
+        cases.append({"size": n, "rects": [list(y)], "second": [list(x), list(z)]})
     edits = []
     for x in rects:
         r0, c0, r1, c1 = x
